@@ -9,5 +9,5 @@ fi
 export GG_GOROOT
 export PATH="$GG_GOROOT/bin:$PATH"
 export GOTOOLCHAIN=local GOFLAGS=-mod=mod GOPROXY=off GOSUMDB=off GONOSUMDB='*' GONOSUMCHECK=1 GOWORK=off
-export VERIF_ROOT=/verif
-export VERIF_BUILD=/verif/.build
+export VERIF_ROOT="${VERIF_ROOT:-/verif}"
+export VERIF_BUILD="$VERIF_ROOT/.build"
